@@ -38,6 +38,21 @@ FIRST = {  # why the first run of the property's quick check missed the change (
     "C19-r3-1": "the failing foreign call was always an instruction of the module function (now: through `call`, two nested calls, and as the callback of the built-in map)",
     "C19-r3-2": "the probe's error message was always one non-empty line (now: failmsg raises its argument verbatim: empty, several lines, long, non-ASCII)",
     "C20-r3-1": "caught at first run",
+    # round 4 (all twenty properties)
+    "C02-r4-1": "caught at first run", "C02-r4-2": "caught at first run",
+    "C03-r4-1": "the wrong-typed expression put in a typed position was never an OPTIONAL of the right type (now: `T?` where `T` is required, in initializers, arguments, conditions)",
+    "C03-r4-2": "no function-typed position (parameter, annotated variable, result) in any template",
+    "C04-r4-1": "the codec generator skipped repeated function names (the theorem's side condition), so the loader's keep-the-last rule was never exercised; two same-named classes in different scopes added to the run-vs-execute programs",
+    "C04-r4-2": "run vs compile+execute was compared on programs that end normally or with a diagnostic only (now: every failure kind, at module level and inside functions)",
+    "C05-r4-1": "caught at first run", "C05-r4-2": "caught at first run",
+    "C06-r4-1": "no tree whose value is MIN / -1 (MIN needs depth 2); note: the change is in the RUN-TIME operator, C05 catches it as well",
+    "C06-r4-2": "caught at first run",
+    "C07-r4-1": "the right-hand side of `modify` was always a scalar expression, never an element or field (a view)",
+    "C07-r4-2": "closures were created in function bodies and at module level, never inside an if / loop body over a variable declared in that body",
+    "C09-r4-1": "the verified certificate speaks about jumps, frames and operand lengths; compiler temporaries (`#k`) were not tracked (now: an unverified definite-assignment lint over the same edges, and all bracketings of 3 logical operators)",
+    "C09-r4-2": "caught at first run",
+    "C10-r4-1": "write paths had one postfix level; parenthesised multi-level paths `(a[0])[1] op= v` were absent",
+    "C10-r4-2": "`import <path>` was not among the write forms (now: const / class / module name protected against every spelling of the path)",
     "C20-r3-2": "caught at first run, but only as a model/implementation difference on `..mmm` (a name the property's list leaves open); hidden names with a real extension (`.cache.mmm`) now give the concrete failing tree",
 }
 
